@@ -5,7 +5,9 @@ import (
 	"compress/gzip"
 	"context"
 	"encoding/json"
+	"errors"
 	"fmt"
+	"io"
 	"net/http"
 	"net/http/httptest"
 	"runtime"
@@ -235,6 +237,59 @@ func C08(r *h.Run) {
 		r.Sample("unary_error_compressed", map[string]any{"in": in, "client_error": fmt.Sprint(res.err)})
 		if res.err == nil || connect.CodeOf(res.err) != code || !strings.Contains(res.err.Error(), msg) {
 			r.Fail(h.Failure{Key: "lossless/compressed-error-not-decoded", Family: "unary_error_compressed", What: "an error body compressed with an algorithm the client advertised did not decompress to the error the peer sent", Input: in, Expected: code.String() + ": " + msg, Actual: fmt.Sprint(res.err)})
+		}
+	}
+
+	// ---- a compressor that FAILS on some message: the response says what its body is — an
+	// error the client can read, not a body labelled with an encoding it does not have ----
+	for _, proto := range protos {
+		for _, kind := range []string{"unary", "server"} {
+			cfg := envCfg{Proto: proto}
+			failing := connect.WithCompression("failz", func() connect.Decompressor { return &failzDecompressor{} }, func() connect.Compressor { return &failzCompressor{} })
+			acceptFailz := connect.WithAcceptCompression("failz", func() connect.Decompressor { return &failzDecompressor{} }, func() connect.Compressor { return &failzCompressor{} })
+			mux := http.NewServeMux()
+			msg := bytes.Repeat([]byte("POISON"), 20) // the compressor refuses payloads containing POISON
+			mux.Handle("/verif.Svc/Unary", connect.NewUnaryHandler("/verif.Svc/Unary", func(context.Context, *connect.Request[h.Raw]) (*connect.Response[h.Raw], error) {
+				return connect.NewResponse(&h.Raw{B: msg}), nil
+			}, connect.WithCodec(h.ToyCodec{}), failing))
+			mux.Handle("/verif.Svc/Server", connect.NewServerStreamHandler("/verif.Svc/Server", func(_ context.Context, _ *connect.Request[h.Raw], st *connect.ServerStream[h.Raw]) error {
+				return st.Send(&h.Raw{B: msg})
+			}, connect.WithCodec(h.ToyCodec{}), failing))
+			copts := []connect.ClientOption{connect.WithCodec(h.ToyCodec{}), acceptFailz}
+			switch proto {
+			case "grpc":
+				copts = append(copts, connect.WithGRPC())
+			case "grpcweb":
+				copts = append(copts, connect.WithGRPCWeb())
+			}
+			lc := &h.LocalClient{Handler: mux}
+			var callErr error
+			p := safely(func() {
+				if kind == "unary" {
+					_, callErr = connect.NewClient[h.Raw, h.Raw](lc, "http://verif.local/verif.Svc/Unary", copts...).CallUnary(context.Background(), connect.NewRequest(&h.Raw{B: []byte("q")}))
+				} else {
+					st, err := connect.NewClient[h.Raw, h.Raw](lc, "http://verif.local/verif.Svc/Server", copts...).CallServerStream(context.Background(), connect.NewRequest(&h.Raw{B: []byte("q")}))
+					if err != nil {
+						callErr = err
+						return
+					}
+					for st.Receive() {
+					}
+					callErr = st.Err()
+					_ = st.Close()
+				}
+			})
+			_ = cfg
+			in := map[string]any{"proto": proto, "kind": kind, "negotiated": "failz (the handler's compressor fails on this response message)", "response_bytes": len(msg)}
+			r.Eval("compressor_fails", fmt.Sprint(proto, kind))
+			if p != nil {
+				r.Fail(h.Failure{Key: "negotiate/panic", Family: "compressor_fails", What: fmt.Sprint("panic: ", p), Input: in})
+				continue
+			}
+			r.Sample("compressor_fails", map[string]any{"in": in, "client_error": fmt.Sprint(callErr)})
+			if callErr == nil || connect.CodeOf(callErr) != connect.CodeInternal || !strings.Contains(callErr.Error(), "compress") {
+				r.Fail(h.Failure{Key: "lossless/compressor-failure-unreadable", Family: "compressor_fails", What: "the handler's compressor failed: the client did not receive that failure (internal: compress ...) — the response does not say truthfully how its body is encoded", Input: in, Expected: "internal: compress: ...", Actual: fmt.Sprint(callErr)})
+			}
 		}
 	}
 
@@ -588,4 +643,48 @@ func minInt(a, b int) int {
 		return a
 	}
 	return b
+}
+
+// failz: gzip-based algorithm whose compressor refuses any payload containing "POISON".
+type failzCompressor struct {
+	w   io.Writer
+	buf bytes.Buffer
+}
+
+func (c *failzCompressor) Reset(w io.Writer) { c.w = w; c.buf.Reset() }
+func (c *failzCompressor) Write(p []byte) (int, error) {
+	if bytes.Contains(p, []byte("POISON")) {
+		return 0, errors.New("failz: cannot compress this payload")
+	}
+	return c.buf.Write(p)
+}
+func (c *failzCompressor) Close() error {
+	zw := gzip.NewWriter(c.w)
+	if _, err := zw.Write(c.buf.Bytes()); err != nil {
+		return err
+	}
+	return zw.Close()
+}
+
+type failzDecompressor struct{ r *gzip.Reader }
+
+func (d *failzDecompressor) Reset(src io.Reader) error {
+	zr, err := gzip.NewReader(src)
+	if err != nil {
+		return err
+	}
+	d.r = zr
+	return nil
+}
+func (d *failzDecompressor) Read(p []byte) (int, error) {
+	if d.r == nil {
+		return 0, io.EOF
+	}
+	return d.r.Read(p)
+}
+func (d *failzDecompressor) Close() error {
+	if d.r == nil {
+		return nil
+	}
+	return d.r.Close()
 }
